@@ -11,12 +11,12 @@ DECIDES = ('Decides that every peer-controlled length is compared with the trust
            'stream (liveness) is not decided.')
 RULES = {
     'R1': 'receive paths: every recv/recvmsg/memcpy into a caller-supplied buffer uses a length that is the capacity, a remainder of it, or a peer value cut by a comparison with the capacity',
-    'R2': 'the size reported to msg_process is cut by size >= sizeof(header), hdr->size >= sizeof(header) and hdr->size <= size (bytes received)',
+    'R2': 'the size reported to msg_process is cut by size >= sizeof(header), hdr->size >= sizeof(header) and hdr->size <= size (bytes received), and size itself by <= max_msg_size (explicitly, since a peek into the shared ring returns the length word the peer wrote)',
     'R3': 'handle_new_connection is reached only after the whole fixed-size record was received, credentials were obtained and hdr.id is AUTHENTICATE; every other edge closes the socket; the record is freed on every path',
     'R5': 'every send that reads from receive_buf uses a length bounded by its capacity (request.max_msg_size)',
     'R4': 'the capacity given to the receive slot is the allocation size of receive_buf; that size is at least what the receive path writes unconditionally (the header peek)',
 }
-FLOORS = {'R1': 6, 'R2': 3, 'R3': 5, 'R4': 3, 'R5': 1}
+FLOORS = {'R1': 6, 'R2': 4, 'R3': 5, 'R4': 3, 'R5': 1}
 
 
 def run(ctx):
@@ -170,6 +170,26 @@ def r2(ctx):
                   'msg_process is told %s, a peer-controlled value not compared with the %s bytes actually received' % (szarg, sizev))
         ctx.check('R2', 'reported-size>=header', f.uncut_path(ev, claim_min) is None, ev, 'the reported size covers at least the header',
                   'msg_process can be told a size smaller than the header it is handed')
+    # "bytes received" is itself bounded by the negotiated maximum: a receive into a buffer is bounded by the capacity it was given;
+    # a peek into the shared ring returns the chunk length word, which the peer wrote
+    def within_max(a, fb):
+        return a.ls == sizev and a.op == '<=' and last_field(a.r) is not None and last_field(a.r)[1] == 'max_msg_size'
+    cut = f.uncut_path(ev, within_max) is None
+    unb = []
+    for st in f.events('STORE'):
+        c = unwrap(st.rhs) if st.rhs is not None else {}
+        if estr(st.lhs) != sizev:
+            continue
+        if callee_of(c) == 'qb_ipcs_funcs::recv':
+            cap = c['args'][2]
+            if not (last_field(cap) is not None and last_field(cap)[1] == 'max_msg_size'):
+                unb.append(st)
+        elif callee_of(c) == 'qb_ipcs_funcs::peek':
+            unb.append(st)
+    ctx.check('R2', 'received<=negotiated-maximum', cut or not unb, unb[0] if unb and not cut else ev,
+              'the received length is compared with max_msg_size before msg_process runs' if cut else 'every receive is bounded by max_msg_size',
+              'the length taken from %s is never compared with the negotiated maximum: on shared memory it is the chunk length word the peer '
+              'wrote into the ring, so msg_process can be told any size (2 GiB for 16 bytes written)' % (estr(unwrap(unb[0].rhs))[:60] if unb else '?'))
     ctx.check('R2', 'header-received-before-use', f.uncut_path(ev, got_header) is None, ev, 'msg_process runs only when a whole header was received',
               'msg_process can run on fewer bytes than a request header (stale buffer contents are interpreted)')
 
